@@ -29,6 +29,20 @@ class Color(enum.Enum):
 '''
 
 
+class Fresh:
+    """An input that is made anew for every call (memoryviews: a call must not be able to spoil the next one by what it
+    does to the object; within one union call the members still share the one object they are given)."""
+
+    def __init__(self, make, label):
+        self.make, self.label = make, label
+
+    def __call__(self):
+        return self.make()
+
+    def __repr__(self):
+        return self.label
+
+
 def pool():
     mod = types.ModuleType(MOD)
     sys.modules[MOD] = mod
@@ -49,6 +63,11 @@ def pool():
         [1], ["a"], [], [1, "2"], {"a": 1}, {"a": "x"}, {}, (1, 2), {1, 2},
         decimal.Decimal("1.5"), datetime.date(2020, 1, 1), datetime.datetime(2020, 1, 1, tzinfo=utc),
         uuid.UUID(int=5), mod.DC(a=1), mod.Color.RED, mod.Color.BLUE, 1.0, "1.0", "1e3", object(),
+        Fresh(lambda: memoryview(b"1"), "memoryview(b'1')"), Fresh(lambda: memoryview(b"abc"), "memoryview(b'abc')"),
+        Fresh(lambda: memoryview(bytearray(b"[1, 2]")), "memoryview(bytearray(b'[1, 2]'))"),
+        Fresh(lambda: memoryview(b'{"a": 1}'), "memoryview(b'{\"a\": 1}')"),
+        Fresh(lambda: memoryview(b'["x", 2020-01-01]')[6:16], "memoryview(b'[\"x\", 2020-01-01]')[6:16]"),
+        Fresh(lambda: memoryview(b"blue"), "memoryview(b'blue')"),
     ]
     # values offered to marshal: valid instances of some member, plus a few of none
     mvalues = [
@@ -122,14 +141,15 @@ def run_tuple(tys, names, how, inputs, mvalues, rng, tid):
     for pas, order in ((1, order1), (2, order2)):
         for j in order:
             x = inputs[j]
+            mk = x if isinstance(x, Fresh) else (lambda x=x: x)
             outs, unstable = [], False
             for i, r in enumerate(um):
-                a, b = _call(r, x), _call(r, x)
+                a, b = _call(r, mk()), _call(r, mk())
                 unstable |= a != b
                 outs.append({"none": names[i] == "None", "ok": a[0], "v": a[1]})
             if unstable:
                 continue     # e.g. time-of-day inputs resolved against "now"
-            ok, v = _call(U, x)
+            ok, v = _call(U, mk())
             events.append({"tid": tid, "dir": "unmarshal", "names": list(names), "how": how, "inp": j, "pass": pas,
                            "members": outs, "xnone": x is None, "nonekey": nonekey, "res": {"ok": ok, "v": v}})
     for j, x in enumerate(mvalues):
